@@ -4,7 +4,7 @@ from __future__ import annotations
 
 import ast
 
-from tiv.astutil import body_walk, call_name, dotted, enclosing_func, enclosing_stmt, guards, norm, short, stores_in, try_context, walk_local
+from tiv.astutil import conds, body_walk, call_name, dotted, enclosing_func, enclosing_stmt, guards, norm, short, stores_in, try_context, walk_local
 from tiv.cfg import CFG, fmt_path
 from tiv.effects import emits, names_in
 from tiv.match import match_stmt, b2s, find_stmts, match_expr
@@ -153,7 +153,11 @@ def run(ck, m):
           f"clearing all images can complete without changing the canvas disguise ({fmt_path(p) if p else ''}): urwid's line cache then skips the unchanged image lines and the deleted images are never drawn again",
           stmt="clear_images[all]: disguise changed on every path (now or deferred)")
     wl = next((n for n in body_walk(ci) if isinstance(n, ast.For) and "enumerate(widgets)" in norm(n.iter)), None)
-    okw = wl is not None and any(isinstance(s, ast.If) and "KittyImage" in norm(s.test) and any(norm(x) == "widget._ti_change_disguise()" for x in s.body) and any("kitty_widgets.append(widget)" == norm(x) for x in s.body) for s in wl.body)
+    # both the disguise change and the queuing run for exactly the kitty widgets (enclosing `if`, or after a `continue` guard)
+    def _kitty_only(call_src):
+        cs_ = [c for c in (walk_local(wl) if wl is not None else []) if isinstance(c, ast.Call) and norm(c) == call_src]
+        return len(cs_) == 1 and "isinstance(widget._ti_image, KittyImage)" in conds(cs_[0])
+    okw = wl is not None and _kitty_only("widget._ti_change_disguise()") and _kitty_only("kitty_widgets.append(widget)")
     ck.ob("R3", wl or ci, okw, "clearing specific widgets must change each kitty widget's disguise when it is queued for deletion (independently of now)", stmt="clear_images[widgets]: per-widget disguise changed")
 
     # ---- R4 ----------------------------------------------------------------------------
@@ -182,7 +186,8 @@ def run(ck, m):
         if isinstance(c, ast.Call) and isinstance(c.func, ast.Attribute) and isinstance(c.func.value, ast.Attribute) and c.func.value.attr == "_ti_free_z_indexes":
             q = getattr(enclosing_stmt(c), "_q", "")
             if c.func.attr == "add":
-                ck.ob("R4", enclosing_stmt(c), q.endswith("UrwidImage.__del__") and norm(c.args[0]) == "self._ti_z_index", "indexes are returned to the free list only by the dying widget, with its own index", stmt="free list: add(self._ti_z_index) in __del__")
+                fn_ = enclosing_func(c)
+                ck.ob("R4", enclosing_stmt(c), q.endswith("UrwidImage.__del__") and norm(trace(fn_, c.args[0]) if isinstance(fn_, ast.FunctionDef) else c.args[0]) == "self._ti_z_index", "indexes are returned to the free list only by the dying widget, with its own index", stmt="free list: add(self._ti_z_index) in __del__")
             elif c.func.attr == "pop":
                 ck.ob("R4", enclosing_stmt(c), q.endswith("_ti_get_z_index"), "indexes are taken from the free list only by the allocator", stmt="free list: pop() in allocator")
             else:
